@@ -19,6 +19,10 @@ import MM.Model.C19
     race <net> <k> <n>                           -> ok dyn <keys>   k goroutines x n times (add; remove) of <net>, concurrently
     open i:<iphex>                               -> dial <ip> | denied | dialfail (dial attempted, connection failed)
     open n:<namehex>:<resolved iphex|->          -> dial <ip> | denied | unresolved | dialfail
+    open m:<namehex>:<ip,ip,..|->:<p|q>          the name is resolved for real through the harness's DNS server, which answers
+                                                 these A/AAAA records in this order; port p = every loopback address listens,
+                                                 q = only 127.0.0.2, 127.9.9.9, 127.77.0.1, ::1 listen (127.0.0.1, 127.1/16 refuse)
+                                                 -> dial <ip actually connected> | denied | unresolved | dialfail
     state                                        -> dyn <key>=<metric>,..|- allowed <key>,..|-|none
         (key = <iphex>/<bits> after the normalisation of IPNet.String(); dyn sorted, allowed in order)
 -/
@@ -36,6 +40,14 @@ def parseList {α : Type} (f : String → Option α) (s : String) : Option (List
 def parseDest (s : String) : Option Dest :=
   match s.splitOn ":" with
   | ["i", ip] => (bytesOfHex ip).map .ip
+  | ["m", nm, recs, _] => do
+    let name ← bytesOfHex nm
+    let ips ← if recs = "-" then some [] else (recs.splitOn ",").mapM bytesOfHex
+    -- `Resolve`: the first IPv4 record, else the first record
+    let preferred := match ips.find? (fun b => (C23.to4 b).isSome) with
+      | some b => some ((C23.to4 b).getD b)
+      | none => ips.head?
+    pure (.name name preferred)
   | ["n", nm, r] => do
     let name ← bytesOfHex nm
     if r = "-" then pure (.name name none) else pure (.name name (some (← bytesOfHex r)))
@@ -164,9 +176,20 @@ def specStep (s : SpecSt) (l : String) : SpecSt × String :=
     | ["open", d] =>
       match parseDest d with
       | some dest =>
-        if out.startsWith "dial" then
-          (s, if s.permits dest then "ok" else "fail dial-unpermitted")
-        else (s, "ok")
+        -- every address actually connected to must be permitted (or the NAME must match a pattern);
+        -- `dialfail`: an attempt was made, judged on the address the request resolves to
+        match tokens out with
+        | ["dial", ipx] =>
+          match bytesOfHex ipx with
+          | some dialled =>
+            let d' : Dest := match dest with
+              | .ip _ => .ip dialled
+              | .name nm _ => .name nm (some dialled)
+            (s, if s.permits d' then "ok" else "fail dial-unpermitted")
+          | none => (s, "fail unparsable-output")
+        | _ =>
+          if out.startsWith "dial" then (s, if s.permits dest then "ok" else "fail dial-unpermitted")
+          else (s, "ok")
       | none => (s, "fail unparsable-op")
     | ["state"] =>
       match tokens out with
